@@ -182,8 +182,8 @@ func scenarioMain(args []string) {
 			var ac *netceptor.Conn
 			select {
 			case ac = <-acc:
-			case <-time.After(3 * time.Second):
-				res.violate("accepted connection did not show up", "accept-missing", nil)
+			case <-time.After(45 * time.Second):
+				res.violate("accepted connection did not show up within 45s", "accept-missing", nil)
 			}
 			_, _ = c.Write([]byte("x"))
 			if round%2 == 0 {
